@@ -186,3 +186,23 @@ func Observe(name string, v uint64)     { fmt.Printf("VSYM-OBS %s=%d\n", name, v
 func ObserveBytes(name string, b []byte) { fmt.Printf("VSYM-OBS %s=%s\n", name, hex.EncodeToString(b)) }
 
 var _ = strings.TrimSpace
+
+// And, Or, Implies combine conditions without branching (Go's && and || are control flow and
+// would make the executor fork).
+func And(cs ...bool) bool {
+	for _, c := range cs {
+		if !c {
+			return false
+		}
+	}
+	return true
+}
+func Or(cs ...bool) bool {
+	for _, c := range cs {
+		if c {
+			return true
+		}
+	}
+	return false
+}
+func Implies(a, b bool) bool { return !a || b }
